@@ -199,7 +199,7 @@ CHECKS["C11"] = {
             "from the reference model only: PrevNumLeaves; ToDestroy (empty trees popped by the binary addition, post-block layout, destruction order); "
             "NewDelPos/NewDelHash (every pre-block node on a target->root path, ascending, with the compressed hash of what survives under it, zero if nothing); "
             "NewAddPos/NewAddHash (every added leaf and both children of every post-block inner node holding a new leaf, ascending, no duplicates). "
-            "Non-trivial: contains a block with >=1 deletion and >=2 additions. In 2 of 3 cases a second stump / light client follows the SAME forest embedded behind 2^k (+2^j) opaque leaves, k up to 62 (layouts of up to 63 rows): positions are shifted by the independent geometry and everything is checked again there.",
+            "Non-trivial: contains a block with >=1 deletion and >=2 additions. In 2 of 3 cases a second stump / light client follows the SAME forest embedded behind 2^k (+2^j) opaque leaves, k up to 62 (layouts of up to 63 rows): positions are shifted by the independent geometry and everything is checked again there. Deterministic scale probes: the C01 scale history on 2^9 and 2^12 leaves (thorough up to 2^15), also embedded behind 2^45 opaque leaves.",
     "assumptions": COMMON_ASSUME,
 }
 MANIFEST_TEXT["C11"] = {
@@ -241,7 +241,7 @@ CHECKS["C09"] = {
             "operation, with the model laid out in TotalRows coordinates: every stored (position,hash) is a true node hash (roots may be zero); the cache "
             "holds exactly the remembered leaves at their true positions; required (roots, remembered leaves, canonical proof positions) is a subset of "
             "stored, which is a subset of allowed (required plus path positions and their siblings); Prove of 6 probe sub-lists equals the canonical proof. Non-trivial: "
-            "a prune, ingest or undo after a block with deletions, with a non-empty cache at the end.",
+            "a prune, ingest or undo after a block with deletions, with a non-empty cache at the end. Deterministic scale probes: a partial forest through the scale history on 2^9 and 2^11 leaves (thorough up to 2^13): Verify(remember) of 300 leaves, blocks emptying tall subtrees, one Prune call for most of the cache, two undos.",
     "assumptions": COMMON_ASSUME + ["'positions on their proof paths' is read as: positions on the remembered leaves' paths to their roots and the siblings of those positions"],
 }
 MANIFEST_TEXT["C09"] = {
@@ -360,7 +360,7 @@ CHECKS["C17"] = {
             "Stump.Update, Proof.Update (UpdateData fields guarded), Pollard.Modify, MapPollard.Modify (full, partial) and, in a third of the blocks, Undo on all three forests and "
             "Proof.Undo followed by applying the same data again. After EVERY call every guarded argument (whole backing array, 0..cap) and every slice the library returned "
             "earlier in the case (proofs, update data, hash lists, roots, stump snapshots, missing positions, and the cached Proof value itself after every Proof.Update / Proof.Undo; last 60) is compared with its snapshot. Non-trivial: a block with >=2 "
-            "deletions given in non-ascending target order on a state that already has a deleted leaf.",
+            "deletions given in non-ascending target order on a state that already has a deleted leaf. Deterministic scale probes: the scale history on 2^9 and 2^11 leaves (thorough up to 2^13) with guarded slices of thousands of elements, every second block undone and re-applied.",
     "assumptions": COMMON_ASSUME + ["the spare capacity behind a passed slice is the caller's memory (callers pass sub-slices such as hashes[:1]); writes there are reported with their own message",
                                     "a wrong root or a refused honest call with all guards intact is another property's business (counted as setup-failed, not reported here)"],
 }
